@@ -3177,26 +3177,64 @@ impl<'a, R: FileManager> FrontendCtx<'a, R> {
         })? {
             return Ok(Runtype::never());
         }
-        let (head, tail) = semtype_to_runtypes(
-            ctx,
-            &access_st,
-            // TODO: do we need this?
-            &RuntypeUUID {
-                ty: RuntypeName::Address(TypeAddress {
-                    file: anchor.f.clone(),
-                    name: "AnyName".into(),
-                }),
-                type_arguments: vec![],
-            },
-            &mut self.counter,
-        )
-        .map_err(|any| {
-            self.box_error(anchor, DiagnosticInfoMessage::AnyhowError(any.to_string()))
-        })?;
+        // the result itself may be recursive (`Exclude<Tree | string, string>`): it is converted under a
+        // generated name of its own, and registered under that name when something refers back to it
+        self.counter += 1;
+        let head_name = RuntypeUUID {
+            ty: RuntypeName::SemtypeRecursiveGenerated(self.counter),
+            type_arguments: vec![],
+        };
+        let (head, tail) = semtype_to_runtypes(ctx, &access_st, &head_name, &mut self.counter)
+            .map_err(|any| {
+                self.box_error(anchor, DiagnosticInfoMessage::AnyhowError(any.to_string()))
+            })?;
+        let refers_back = Self::runtype_mentions(&head.schema, &head_name)
+            || tail
+                .iter()
+                .any(|t| Self::runtype_mentions(&t.schema, &head_name));
         for t in tail {
             self.insert_definition(t.name.clone(), t.schema)?;
         }
+        if refers_back {
+            self.insert_definition(head_name.clone(), head.schema)?;
+            return Ok(Runtype::ref_(head_name));
+        }
         Ok(head.schema)
+    }
+
+    fn runtype_mentions(t: &Runtype, name: &RuntypeUUID) -> bool {
+        let opt = |o: &Optionality<Runtype>| Self::runtype_mentions(o.inner(), name);
+        match &t.kind {
+            RuntypeKind::Ref(r) => r == name,
+            RuntypeKind::Object {
+                vs,
+                indexed_properties,
+            } => {
+                vs.values().any(opt)
+                    || indexed_properties.as_ref().is_some_and(|ip| {
+                        Self::runtype_mentions(&ip.key, name) || opt(&ip.value)
+                    })
+            }
+            RuntypeKind::Array(e) | RuntypeKind::Set(e) | RuntypeKind::StNot(e) => {
+                Self::runtype_mentions(e, name)
+            }
+            RuntypeKind::Tuple {
+                prefix_items,
+                items,
+            } => {
+                prefix_items.iter().any(|x| Self::runtype_mentions(x, name))
+                    || items
+                        .as_ref()
+                        .is_some_and(|x| Self::runtype_mentions(x, name))
+            }
+            RuntypeKind::AnyOf(m) | RuntypeKind::AllOf(m) => {
+                m.iter().any(|x| Self::runtype_mentions(x, name))
+            }
+            RuntypeKind::Map(k, v) => {
+                Self::runtype_mentions(k, name) || Self::runtype_mentions(v, name)
+            }
+            _ => false,
+        }
     }
 
     fn convert_indexed_access_syntatically(
